@@ -5,7 +5,7 @@
    grant of that privilege matches.  PARTIAL: token validation (jsonwebtoken) is trusted; "no
    request is served before a valid token" and the per-request table are validated on a live
    session by the session engine, not proved here. *)
-From WB Require Import Base.Str Base.Json Model.Key Model.Match Model.Core Model.Codec Model.Auth Model.Session Proofs.AuthFacts Proofs.SessionFacts.
+From WB Require Import Base.Str Base.Json Model.Key Model.Match Model.Core Model.Codec Model.Auth Model.Session Model.Rest Proofs.AuthFacts Proofs.SessionFacts Proofs.RestFacts.
 
 Theorem C15_sound_doc :
   forall g r k, wf_pat g = true -> pm g r = true -> doc_match r k = true -> doc_match g k = true.
@@ -62,6 +62,25 @@ Theorem C15_denied_is_noop :
     handle w sn m = (w, [(sn, SErr (tid_of m) E_Unauthorized [])], Continue).
 Proof. exact denied_is_noop. Qed.
 Print Assumptions C15_denied_is_noop.
+
+(* the same for the REST front end (Model/Rest.v: axum/auth.rs bearer_auth + the handlers of axum/mod.rs) *)
+Theorem C15_rest_no_service_before_token :
+  forall tok s r, tok = TNone \/ tok = TInvalid ->
+    exists st, rest_handle true tok s r = (s, out_res RUnit, RStatus st) /\ (st = 401 \/ st = 403)%N.
+Proof. exact rest_no_service_before_token. Qed.
+Print Assumptions C15_rest_no_service_before_token.
+
+Theorem C15_rest_denied_is_noop :
+  forall cl s r, authorize cl (fst (rest_requirement r)) (snd (rest_requirement r)) = false ->
+    rest_handle true (TClaims cl) s r = (s, out_res RUnit, RStatus 403%N).
+Proof. exact rest_denied_is_noop. Qed.
+Print Assumptions C15_rest_denied_is_noop.
+
+Theorem C15_rest_granted_is_served :
+  forall cl s r, authorize cl (fst (rest_requirement r)) (snd (rest_requirement r)) = true ->
+    rest_handle true (TClaims cl) s r = rest_handle false TNone s r.
+Proof. exact rest_granted_is_served. Qed.
+Print Assumptions C15_rest_granted_is_served.
 
 Example C15_nonvacuous :
   pattern_matches [97;47;35] [97;47;63;47;98] = true /\ pattern_matches [97;47;63] [97;47;35] = false /\
